@@ -407,3 +407,17 @@ N("C01", "superclass handler", B64, "        except binascii.Error:\n           
 N("C01", "chr handler without the subclass", CHRF, "except (ValueError, UnicodeEncodeError):", "except ValueError:")
 N("C01", "regex rewritten with [0-9]", XH, 'XOR_RE = rb"(?i)-b?xor\\s*(\\d{1,3})"', 'XOR_RE = rb"(?i)-b?xor\\s*([0-9]{1,3})"')
 N("C01", "loop bound rewritten", SH, "    while i < len(cmd) - 1:\n", "    while i <= len(cmd) - 2:\n")
+
+# ------------------------------------------------------------------ C08
+B("C08", "stack hoisted to self", MD, "        stack: list[Node] = []\n", "        self.stack = stack = self.__dict__.setdefault(\"stack\", [])\n", "R1-fresh-recursive-scan")
+B("C08", "mutable default stack", MD, "    def scan_node(self, node: Node, depth_limit: int = DEFAULT_DEPTH_LIMIT) -> Node:", "    def scan_node(self, node: Node, depth_limit: int = DEFAULT_DEPTH_LIMIT, stack: list = []) -> Node:", "R1-fresh-recursive-scan", also=[dict(file=MD, old="        stack: list[Node] = []\n", new="")])
+B("C08", "recursive call on the parent", MD, "self.scan_node(hit, depth_limit - 1)", "self.scan_node(hit.parent, depth_limit - 1)", "R1-fresh-recursive-scan")
+B("C08", "decoders called with node.original", MD, "for hit in search(node.value) if hit.value", "for hit in search(node.original) if hit.value", "R3-value-only")
+B("C08", "decoded test compares lengths", MD, "if hit.value.lower() != hit.original.lower() or hit.children:", "if len(hit.value) != len(hit.original) or hit.children:", "R1-fresh-recursive-scan")
+B("C08", "offset starts at the node's own start", MD, "        offset = 0  # start of the current node relative to the start of the original node\n", "        offset = node.start\n", "R")
+B("C08", "skip short decoded values near the start", MD, "            hit.parent = node\n", "            if node.start < 4 and len(hit.value) < 2:\n                continue\n            hit.parent = node\n", "R2-read-set")
+B("C08", "decoder keeps a module-level memo", D + "hex.py", "    return [\n        Node(\"\", unhexlify(match.group(0)), \"decoded.hexadecimal\", *match.span(0))\n        for match in re.finditer(HEX_RE, data)\n    ]", "    if data in _SEEN:\n        return []\n    _SEEN.add(data)\n    return [\n        Node(\"\", unhexlify(match.group(0)), \"decoded.hexadecimal\", *match.span(0))\n        for match in re.finditer(HEX_RE, data)\n    ]", "R3-value-only", also=[dict(file=D + "hex.py", old="HEX_SPACE_RE =", new="_SEEN: set = set()\nHEX_SPACE_RE =")])
+N("C08", "locals renamed", MD, "", "", edits=[("decode_end", "shadow_end"), ("offset", "base"), ("stack", "ctxs")], replace_all=True)
+N("C04", "roles renamed", MD, "", "", edits=[("decode_end", "shadow_end"), ("offset", "base"), ("stack", "ctxs")], replace_all=True)
+N("C06", "roles renamed", MD, "", "", edits=[("decode_end", "shadow_end"), ("offset", "base"), ("stack", "ctxs")], replace_all=True)
+N("C08", "initialisation order changed", MD, "        stack: list[Node] = []\n        decode_end = 0  # end of the last decoded context\n", "        decode_end = 0  # end of the last decoded context\n        stack: list[Node] = []\n")
